@@ -21,8 +21,11 @@ def factor_box(rng: random.Random, total: int, maxdim: int = 3):
     return dims
 
 
-def make_box(rng, total, maxdim, zero_in_box=None):
+def make_box(rng, total, maxdim, zero_in_box=None, unit_dim=0.0):
     dims = factor_box(rng, total, maxdim)
+    if rng.random() < unit_dim:
+        # a zero-width dimension (a component that can never change): vectors get one more component, the row count stays
+        dims.insert(rng.randrange(len(dims) + 1), 1)
     if zero_in_box is None:
         zero_in_box = rng.random() < 0.5
     mins = []
@@ -52,11 +55,11 @@ def dyadic_row(rng, n, denom=8, p_zero=0.3, p_det=0.15):
 def gen_spec(rng: random.Random, S=None, A=None, E=None, kind="random", R=None, denom=8, smax=12, maxdim=3,
              zero_in_box=None, init=None, initpol=None, prob_as_array=None, adim=2, edim=2):
     S = S or rng.randint(1, smax)
-    A = A or rng.randint(1, 4)
+    A = A or rng.choice([1, 2, 2, 3, 4, 4, 4, 6])
     E = E or rng.randint(1, 4)
     R = R or rng.choice([1, 5, 10, 1000])
     smins, smaxs = make_box(rng, S, maxdim, zero_in_box)
-    amins, amaxs = make_box(rng, A, adim, True if rng.random() < 0.7 else False)
+    amins, amaxs = make_box(rng, A, adim, True if rng.random() < 0.7 else False, unit_dim=0.35)
     emins, emaxs = make_box(rng, E, edim, True if rng.random() < 0.7 else False)
     nxt = [[[rng.randrange(S) for _ in range(E)] for _ in range(A)] for _ in range(S)]
     rew = [[[float(rng.randint(-R, R)) for _ in range(E)] for _ in range(A)] for _ in range(S)]
@@ -85,7 +88,7 @@ def gen_spec(rng: random.Random, S=None, A=None, E=None, kind="random", R=None, 
                     else:
                         good = (a % 2 == 1)
                         nxt[s][a][e], rew[s][a][e] = (0, -cR) if good else (1, cR)
-        amins, amaxs = make_box(rng, A, adim, True)
+        amins, amaxs = make_box(rng, A, adim, True, unit_dim=0.35)
         tags.append("twosink")
     if kind == "periodic":
         # deterministic cycle structure of period p over classes s % p; every action moves to the next class
